@@ -35,7 +35,8 @@ def dir_pattern(rng, which=None):
     every kind distinct; some equal; nested; --outdir absent with all specific
     ones given.
     """
-    pats = ["single", "distinct", "py_lua_shared", "nested", "cf_only", "no_outdir", "log_apart"]
+    pats = ["single", "distinct", "py_lua_shared", "nested", "cf_only", "no_outdir", "log_apart", "relative",
+            "trailing_slash"]
     pat = which or rng.choice(pats)
     d = dict(DIRS)
     argv = []
@@ -63,6 +64,13 @@ def dir_pattern(rng, which=None):
         argv = ["--outdir-c-fortran", d["c_fortran"], "--outdir-python", d["python"],
                 "--outdir-lua", d["lua"], "--outdir-yaml", d["yaml"], "--logdir", d["log"]]
         mk += [d["c_fortran"], d["python"], d["lua"], d["yaml"], d["log"]]
+    elif pat == "relative":
+        # relative to the cwd of the run (WORK)
+        argv = ["--outdir", "out_rel", "--outdir-python", "out_rel/py", "--logdir", "./out_rel/log"]
+        mk += [WORK + "/out_rel", WORK + "/out_rel/py", WORK + "/out_rel/log"]
+    elif pat == "trailing_slash":
+        argv = ["--outdir", OUT + "/", "--outdir-c-fortran", d["c_fortran"] + "/", "--logdir", OUT + "//"]
+        mk += [OUT, d["c_fortran"]]
     elif pat == "log_apart":
         argv = ["--outdir", OUT, "--logdir", d["log"]]
         mk += [OUT, d["log"]]
@@ -128,7 +136,7 @@ def swarm_jobs(seeds, n, corpus, label="swarm"):
         out.append(Job("%s/%d-%s" % (label, i, base.id.split("/")[1]), files, argv,
                        sorted(set(mk)),
                        meta={"source": label, "yaml": base.meta["yaml"], "dirpat": pat,
-                             "opts": opts, "lists": lists, "cwd_free": pat != "no_outdir"}))
+                             "opts": opts, "lists": lists, "cwd_free": pat not in ("no_outdir", "relative")}))
     return out
 
 
